@@ -16,7 +16,7 @@ fn relevant(f: &str) -> bool {
 }
 
 pub fn run(ctx: &Ctx) -> (Vec<Case>, String, bool, BTreeMap<String, String>) {
-    let mut all = cq_queue::run_hostile(ctx, 1500, 60000);
+    let mut all = cq_queue::run_hostile(ctx, 1500, 20000);
     // driver level: event queues with oversize / under-written lengths, console hostile stream,
     // net malformed completions, vsock malformed packets
     let mut extra: Vec<Case> = vec![];
